@@ -98,6 +98,47 @@ def search(budget):
         with wave.open(wavp, "wb") as f:
             f.setframerate(sr); f.setsampwidth(2); f.setnchannels(1); f.writeframes(data)
         open(rawp, "wb").write(data)
+        # stereo input with -u: the channel selection reaches the tokenizer
+        L, R = "aAAAAaaaaaaaaaaa", "aaaaaaaaAAAAAaaa"
+        sdata = b"".join(struct.pack("<2h", (20000 if L[i // B] == "A" else 0) * (1 if i % 2 == 0 else -1),
+                                     (20000 if R[i // B] == "A" else 0) * (1 if i % 2 == 0 else -1)) for i in range(len(L) * B))
+        swav = os.path.join(tmp, "st.wav")
+        with wave.open(swav, "wb") as f:
+            f.setframerate(sr); f.setsampwidth(2); f.setnchannels(2); f.writeframes(sdata)
+        for u in (None, "0", "1", "mix", "-1", "-2"):
+            n += 1
+            kws = dict(min_dur=0.02, max_dur=5, max_silence=0.01, analysis_window=0.01, energy_threshold=50)
+            uc = None if u is None else (int(u) if u.lstrip("-").isdigit() else u)
+            regs = list(split(sdata, sr=sr, sw=2, ch=2, use_channel=uc, **kws))
+            exp = ["%d %s %s" % (i + 1, ref_fmt(r.start, "%S"), ref_fmt(r.end, "%S")) for i, r in enumerate(regs)]
+            argv = [swav, "-n", "0.02", "-s", "0.01", "--printf", "{id} {start} {end}"] + ([] if u is None else ["-u", u])
+            try:
+                rc, out, err = run_main(argv)
+            except Exception as e:  # noqa
+                fail("main", "stereo wav with -u %s: main() raised %s: %s; split(use_channel=%r) gives %d detections" % (
+                    u, type(e).__name__, e, uc, len(exp)), argv=argv)
+            if rc != 0 or out.strip().splitlines() != exp:
+                fail("main", "stereo wav with -u %s: printed %r; split(use_channel=%r) gives %r" % (u, out.strip().splitlines()[:4], uc, exp[:4]),
+                     argv=argv)
+        # a failing final export of -O (target is a directory): detections are printed, status 0
+        n += 1
+        bad_target = os.path.join(tmp, "outdir.raw")
+        os.mkdir(bad_target)
+        try:
+            regs = list(split(data, sr=sr, sw=2, ch=1, min_dur=0.2, max_dur=5, max_silence=0.3, analysis_window=0.01, energy_threshold=50))
+            try:
+                rc, out, err = run_main([wavp, "-O", bad_target, "--printf", "{id}"])
+                what = "exit status %r, printed %r" % (rc, out.split())
+            except BaseException as e:  # noqa
+                rc, out, what = None, "", "main() raised %s" % type(e).__name__
+            if rc != 0 or out.split() != [str(i + 1) for i in range(len(regs))]:
+                fail("main", "-O to a raw target that cannot be written (export fails at the end): %s; expected the %d detections and "
+                     "status 0" % (what, len(regs)))
+        finally:
+            for f in os.listdir(tmp):
+                if f.startswith("outdir.raw") and os.path.isfile(os.path.join(tmp, f)):
+                    os.remove(os.path.join(tmp, f))
+            os.rmdir(bad_target)
         cases = [
             ([], {}),
             (["-n", "0.05", "-m", "0.07", "-s", "0.01"], dict(min_dur=0.05, max_dur=0.07, max_silence=0.01)),
@@ -130,43 +171,6 @@ def search(budget):
                         fail("main", "exit %r, printed %r; split() gives %r" % (rc, got[:4], exp[:4]), argv=argv)
                     if time.time() - t0 > budget:
                         return n
-        # stereo input with -u: the channel selection reaches the tokenizer
-        L, R = "aAAAAaaaaaaaaaaa", "aaaaaaaaAAAAAaaa"
-        sdata = b"".join(struct.pack("<2h", (20000 if L[i // B] == "A" else 0) * (1 if i % 2 == 0 else -1),
-                                     (20000 if R[i // B] == "A" else 0) * (1 if i % 2 == 0 else -1)) for i in range(len(L) * B))
-        swav = os.path.join(tmp, "st.wav")
-        with wave.open(swav, "wb") as f:
-            f.setframerate(sr); f.setsampwidth(2); f.setnchannels(2); f.writeframes(sdata)
-        for u in (None, "0", "1", "mix", "-1", "-2"):
-            n += 1
-            kws = dict(min_dur=0.02, max_dur=5, max_silence=0.01, analysis_window=0.01, energy_threshold=50)
-            uc = None if u is None else (int(u) if u.lstrip("-").isdigit() else u)
-            regs = list(split(sdata, sr=sr, sw=2, ch=2, use_channel=uc, **kws))
-            exp = ["%d %s %s" % (i + 1, ref_fmt(r.start, "%S"), ref_fmt(r.end, "%S")) for i, r in enumerate(regs)]
-            argv = [swav, "-n", "0.02", "-s", "0.01", "--printf", "{id} {start} {end}"] + ([] if u is None else ["-u", u])
-            rc, out, err = run_main(argv)
-            if rc != 0 or out.strip().splitlines() != exp:
-                fail("main", "stereo wav with -u %s: printed %r; split(use_channel=%r) gives %r" % (u, out.strip().splitlines()[:4], uc, exp[:4]),
-                     argv=argv)
-        # a failing final export of -O (target is a directory): detections are printed, status 0
-        n += 1
-        bad_target = os.path.join(tmp, "outdir.raw")
-        os.mkdir(bad_target)
-        try:
-            regs = list(split(data, sr=sr, sw=2, ch=1, min_dur=0.2, max_dur=5, max_silence=0.3, analysis_window=0.01, energy_threshold=50))
-            try:
-                rc, out, err = run_main([wavp, "-O", bad_target, "--printf", "{id}"])
-                what = "exit status %r, printed %r" % (rc, out.split())
-            except BaseException as e:  # noqa
-                rc, out, what = None, "", "main() raised %s" % type(e).__name__
-            if rc != 0 or out.split() != [str(i + 1) for i in range(len(regs))]:
-                fail("main", "-O to a raw target that cannot be written (export fails at the end): %s; expected the %d detections and "
-                     "status 0" % (what, len(regs)))
-        finally:
-            for f in os.listdir(tmp):
-                if f.startswith("outdir.raw") and os.path.isfile(os.path.join(tmp, f)):
-                    os.remove(os.path.join(tmp, f))
-            os.rmdir(bad_target)
         # a --printf template with non-ASCII text and escapes
         n += 1
         tpl = "[{id}] {start} \u2192 {end}\\td\u00e9tection"
